@@ -62,6 +62,23 @@ def recipe(field_indexes, box_array):
     b = box_array[:, :, :, field_indexes[%r]]
     return np.stack([a * 2, b * 3, a * b], axis=-1)
 '''
+REC6 = '''
+import numpy as np
+_out = {}
+def recipe(field_indexes, box_array):
+    """twice"""
+    # the output buffer is kept between calls (one per box shape) to save allocations
+    buf = _out.setdefault(box_array.shape[:3], np.empty(box_array.shape[:3]))
+    buf[...] = box_array[:, :, :, field_indexes[%r]] * 2
+    return buf
+'''
+REC7 = '''
+import numpy as np
+def recipe(field_indexes, box_array):
+    """q1 q2 q3 q4"""
+    a = box_array[:, :, :, field_indexes[%r]]
+    return np.stack([a, a * 2, a + 1, -a], axis=-1)
+'''
 REC3 = '''
 def recipe(field_indexes, box_array, sol_array):
     """cpmass"""
@@ -207,6 +224,14 @@ def run_case(ctx, rep, spec, recipe, kept, serial, model, start=None, species=No
         rp = recipe_path(ctx, "rec5"); open(rp, "w").write(REC5 % (a, b))
         rec, new_names = rp, ["mom_a", "mom_b", "mom_ab"]
         fn = lambda arr: np.stack([arr[..., names[a]] * 2, arr[..., names[b]] * 3, arr[..., names[a]] * arr[..., names[b]]], axis=-1)
+    elif recipe == "rec6":
+        rp = recipe_path(ctx, "rec6"); open(rp, "w").write(REC6 % a)
+        rec, new_names = rp, ["twice"]
+        fn = lambda arr: (arr[..., names[a]] * 2)[..., None]
+    elif recipe == "rec7":
+        rp = recipe_path(ctx, "rec7"); open(rp, "w").write(REC7 % a)
+        rec, new_names = rp, ["q1", "q2", "q3", "q4"]
+        fn = lambda arr: np.stack([arr[..., names[a]], arr[..., names[a]] * 2, arr[..., names[a]] + 1, -arr[..., names[a]]], axis=-1)
     elif recipe == "callable":
         def rcall(fi, arr):
             "triple"
@@ -366,6 +391,14 @@ def run(ctx, rep, model=True):
                      start=[None, pools.order_reversed][(i + j) % 2])
         if len(rep.violations) >= 10:
             return
+    # a recipe that keeps its output buffer between calls, no kept fields, several boxes of one shape in a binary file; and four
+    # components on boxes of 4 x 4 x 4 cells (as many cells along each edge as components)
+    spec = plotgen.random_spec(ctx.rng, ndims=3, nlev=1, nf=2, data="smallint", B=4, nblk=[2, 2, 1], layout="mono", single0=False, profile="plain")
+    spec["levels"] = [[[[4 * i, 4 * j, 0], [4 * i + 3, 4 * j + 3, 3]] for i in range(2) for j in range(2)]]
+    spec["layout"] = [[[0, b] for b in range(4)]]
+    rep.count("four-boxes-of-4x4x4-in-one-file")
+    for recipe, kept, serial in (("rec6", None, True), ("rec6", None, False), ("rec7", None, True), ("rec7", list(dedup_names(spec["fields"]))[0], False)):
+        run_case(ctx, rep, spec, recipe, kept, serial=serial, model=model)
     # thermochemical recipes on a 21-species synthetic plotfile with tiny boxes
     nb = 8 if ctx.quick else 24
     combos = [("HRR", None, None, None), ("ENT", "temp density", None, None), ("SRi", "temp", ["O2", "H2"], None),
@@ -379,7 +412,7 @@ def run(ctx, rep, model=True):
             spec["unity_lewis"] = True; rep.count("mechanism-declaring-unity-Lewis-transport")
         recipe, kept, sp, rx = combos[i % len(combos)]
         run_case(ctx, rep, spec, recipe, kept, serial=(i % 2 == 0), model=model, species=sp, reactions=rx,
-                 start=[None, pools.order_reversed][i % 2], pressure=[1.0, 3.0, 0.5, 1.0, 2.0][i % 5])
+                 start=[None, pools.order_reversed][i % 2], pressure=[1.0, 3.0, 0.5, 1500.0, 2.0][i % 5])
         if i % 4 == 1:
             # the species block in another order than the mechanism's (its first species still first): refuse, or evaluate
             # every mass fraction under its own name
